@@ -170,6 +170,11 @@ impl Service for SimService {
                     }
                     st.ends = *ends;
                     st.created = true;
+                    if let Some((_, _, from, gate)) = w.stream_gates.iter().find(|g| g.0 == *cid && g.1 == *seq).cloned() {
+                        st.gate_from = from;
+                        st.gate = Some(gate);
+                        w.stat("streams_with_items_triggered_by_another_clients_call");
+                    }
                     let id = w.new_stream(st);
                     w.ev("svc.stream_start", *cid as u64, id as u64);
                     let sq = w.seq;
